@@ -12,7 +12,7 @@ if "--note" in args:
         res.setdefault(k, {})["note"] = note
 for f in args:
     for l in open(f):
-        m = re.match(r'(C\d\d-\d) (C\d\d) (DETECTED|MISSED|ERROR.*?) (\d+)s ?(.*)', l)
+        m = re.match(r'(C\d\d-\w+) (C\d\d) (DETECTED|MISSED|ERROR.*?) (\d+)s ?(.*)', l)
         if not m or m.group(3).startswith("ERROR"):
             continue
         how = ""
@@ -21,7 +21,7 @@ for f in args:
         e = res.setdefault(m.group(1), {})
         e.setdefault("first_verdict", m.group(3))
         e["verdict"], e["how"], e["seconds"] = m.group(3), how, int(m.group(4))
-        e.setdefault("round", 1 if int(m.group(1)[-1]) <= 3 else 2)
+        e.setdefault("round", {"1":1,"2":1,"3":1,"4":2,"5":2,"6":3,"7":3,"8":4,"9":4}.get(m.group(1)[-1], 5))
 for k, e in res.items():
     e.setdefault("first_verdict", e.get("verdict"))
 json.dump(res, open(rp, "w"), indent=1, sort_keys=True)
